@@ -8,7 +8,7 @@
 #
 import re
 
-from ural.patterns import QUERY_VALUE_IN_URL_TEMPLATE, PROTOCOL_RE
+from ural.patterns import QUERY_VALUE_IN_URL_TEMPLATE, PROTOCOL_RE, CONTROL_CHARS_RE
 from ural.utils import unquote, urljoin
 
 OBVIOUS_REDIRECTS_RE = re.compile(
@@ -37,6 +37,11 @@ def infer_redirection(url, recursive=True):
         string: Redirected url or the original url if nothing was found.
     """
 
+    # NOTE: hints are searched in the url cleaned the way the url functions
+    # clean their input, so that surrounding whitespace hides nothing
+    original_url = url
+    url = CONTROL_CHARS_RE.sub("", url).strip()
+
     redirection_split = REDIRECTION_DOMAINS_RE.split(url, 1)
 
     target = None
@@ -52,7 +57,7 @@ def infer_redirection(url, recursive=True):
         if obvious_redirect_match is not None:
             if obvious_redirect_match.group(1) == "q":
                 if "/url?q=" not in url and "/redirect" not in url:
-                    return url
+                    return original_url
 
             potential_target = unquote(obvious_redirect_match.group(2))
 
@@ -75,7 +80,7 @@ def infer_redirection(url, recursive=True):
                     else:
                         target = urljoin("http://" + url, potential_target)[7:]
                 except ValueError:
-                    return url
+                    return original_url
 
             # Idiotic youtube redirections
             elif "youtube.com/redirect?" in url:
@@ -84,7 +89,7 @@ def infer_redirection(url, recursive=True):
     # NOTE: a genuine target is embedded in the url, hence strictly shorter.
     # Following anything else could go on forever.
     if target is None or len(target) >= len(url):
-        return url
+        return original_url
 
     if recursive:
         return infer_redirection(target, recursive=True)
